@@ -1,7 +1,7 @@
 CONSTANTS
   Layouts = {"TD1", "TD2", "TD3"}
   Nums = {"A", "B", "C", "D", "E", "F"}
-  Dobs = {"A", "B"}
+  Dobs = {"A", "B", "C"}
   Exps = {"A", "B"}
   Opts = {"A", "N"}
   Names = {"A", "B", "C"}
